@@ -66,6 +66,12 @@ def allowList : List Allow := [
     why := "stat () only, of the file names in the line-number table of an ALREADY LOADED inherited program: its " ++
            "source (passed legal_path in load_object) and the files it #included (opened by inc_open, theorem " ++
            "include_path_confined) — every one of them was opened by the confined loader before" },
+  { file := "lib/lpc/program/binaries.c", fn := "inherited_program_outdated", callee := "check_times",
+    root := "prog->strings[id - 1]",
+    why := "stat () only (save_binary's test for parents that changed since they were loaded, C17 fix 3b97c96): the " ++
+           "file names in the line-number table of an inherited program that is the CURRENT program of a loaded " ++
+           "object (`ob->prog == prog` is tested first): its source passed legal_path in load_object, its include " ++
+           "files were opened by inc_open (include_path_confined) - the same names as in inherited_program_newer" },
   { file := "lib/lpc/program/binaries.c", fn := "inherited_program_newer", callee := "check_times",
     root := "prog->name",
     why := "stat () only, of SaveBinaryDir (configuration) + \"/\" + name of an already loaded inherited program " ++
@@ -129,6 +135,35 @@ example : fsEfuns.length ≥ 20 := by decide
     the theorem. -/
 theorem mediation_propagates_errors : mediationApplies = ["apply_master_ob"] := by decide
 
+/-- functions declared outside the repository that take a character pointer and do NOT take a file name: string
+    comparison / conversion, formatted output to an already open stream, multibyte conversion, `fdopen` (wraps a
+    descriptor), `getcwd` (output only), `crypt`, `inet_ntop`; `query_addr_number` is the driver's own
+    (src/comm.c, declared locally in interactive.c).  Anything else that takes a `char *` must be one of the
+    file-system callees the translator searches for — or this list is extended with a reason. -/
+def knownNonFs : List String :=
+  ["__assert_fail", "atoi", "atol", "atoll", "atof", "crypt", "fdopen", "fgets", "fprintf", "fputs", "fputc", "getcwd",
+   "inet_ntop", "inet_pton", "inet_addr", "mblen", "mbstowcs", "mbtowc", "mbrtowc", "wcstombs", "wctomb",
+   "query_addr_number", "sscanf", "vsscanf", "stpncpy", "strcmp", "strncmp", "strcasecmp", "strncasecmp", "strcoll",
+   "strlen", "strnlen", "strspn", "strcspn", "strtod", "strtof", "strtol", "strtoll", "strtoul", "strtoull", "strdup",
+   "strndup", "strtok", "strtok_r", "strerror_r", "vasprintf", "asprintf", "printf", "vprintf", "vfprintf", "puts",
+   "perror", "getenv", "setlocale", "strftime", "memccpy", "fwrite", "fread", "write", "read", "send", "recv"]
+
+/-- **fail closed on unknown callees**: every external function with a character-pointer parameter that is called
+    from the scanned files is either a file-system callee the translator searches for (then it is a `sites` row
+    and `mediated_sites` speaks about it), a buffer-filling / strchr-family function the translator interprets, or
+    on `knownNonFs`.  A call of a path-taking function nobody listed (a new libc wrapper, `fopen64`-style alias …)
+    breaks this obligation. -/
+theorem ext_callees_classified : extCallees.all (fun c => knownNonFs.contains c) = true := by decide
+
+/-- the searched callee names include the less usual ways to reach a file -/
+theorem fs_callees_cover :
+    (["open", "open64", "openat", "openat2", "creat", "fopen", "fopen64", "freopen", "stat", "lstat", "statx", "fstatat",
+      "access", "unlink", "unlinkat", "remove", "rename", "renameat", "mkdir", "rmdir", "opendir", "scandir", "link",
+      "symlink", "readlink", "truncate", "chmod", "chown", "utime", "utimes", "realpath", "mkstemp", "tmpnam", "popen",
+      "system", "execve", "dlopen", "chdir", "chroot", "glob"].all (fun c => fsCallees.contains c)) = true := by decide
+
+example : knownNonFs.all (fun c => !fsCallees.contains c) = true := by decide
+
 /-- the operation name and write flag of EVERY `check_valid_path` call, regenerated from the source: this is the
     table `Sys.efunEvents` / `Spec.opNames` mirror (efun → operation name, valid_write iff flag 1; `getfn` passes
     its own `writeflg`: 0 for e / E / f / r, 1 for w / W / x).  A call that changes its flag (asks valid_read
@@ -160,7 +195,48 @@ theorem cvp_call_table : cvpCalls = [
     `legalStep`, `nextDot` compare with: `path[0] == '/'`, `strchr (path, '#')`, `p[0] == '.'`, `p[1] == '\\0'`,
     `p[1] == '.'`, `p[1] == '/' || p[1] == '\\0'`, `strstr (p, "/.")` -/
 theorem legal_path_literals :
-    literals = [("legal_path", ["c47", "c35", "c46", "c0", "c46", "c47", "c0", "s\"/.\""])] := by decide
+    literals.lookup "legal_path" = some ["c47", "c35", "c46", "c0", "c46", "c47", "c0", "s\"/.\""] := by decide
+
+/-- the same fingerprint for the other hand-mirrored string functions (character codes: 47 '/', 46 '.', 63 '?',
+    42 '*', 92 '\\', 0 NUL):
+    * `check_valid_path`: `current_dir = "."`, (the tag of `debug_warn`), `ret_path[0] == '/'`, `ret_path[0] == '\0'`
+      — `Model.stripOneSlash`, `cvpFinish`;
+    * `inc_lexically_normal`: the slash tests and the prefixes `"../"` and `"./"` in source order — `Model.incLoop`;
+    * `inc_open`: the three '.' of the ".." scan — `Model.hasDotDot`;
+    * `match_string`: `'?'`, `'*'`, `'\\'` and the NUL tests — `Sys.matchString`.
+    A changed comparison character / prefix (or a reordering) breaks this obligation; the exhaustive differential run
+    over the same functions then looks for an input. -/
+theorem path_function_literals :
+    literals.lookup "check_valid_path" = some ["s\".\"", "s\"WARN\"", "c47", "c0"] ∧
+    literals.lookup "inc_lexically_normal" =
+      some ["c47", "c47", "s\"../\"", "c47", "c47", "s\"./\"", "c47", "s\"/\"", "c47", "c47", "c47"] ∧
+    literals.lookup "inc_open" = some ["c46", "c46", "c46"] ∧
+    literals.lookup "match_string" = some ["c0", "c0", "c63", "c0", "c42", "c0", "c0", "c0", "c92", "c0"] := by decide
+
+/-- which libc function each function of the efun layer / loader calls, in source order (regenerated site table):
+    the names `Sys.efunEvents`, `getDirFs`, `renameEfun` / `moveEvents`, `cpEfun`, `saveEfun`, `edIo`, `loadEvents`,
+    `includeOpens` print for their events (`open` vs `fopen`, `unlink`, `symlink` …).  binaries.c is left out (C17's
+    ground; its rows are covered by `mediated_sites`). -/
+def siteCallees (f : String) : List String := (sites.filter (fun s => s.fn == f && s.arg == 0)).map (·.callee)
+
+theorem efun_libc_table :
+    [("read_file", siteCallees "read_file"), ("write_file", siteCallees "write_file"),
+     ("remove_file", siteCallees "remove_file"), ("f_mkdir", siteCallees "f_mkdir"), ("f_rmdir", siteCallees "f_rmdir"),
+     ("file_size", siteCallees "file_size"), ("file_length", siteCallees "file_length"), ("tail", siteCallees "tail"),
+     ("read_bytes", siteCallees "read_bytes"), ("write_bytes", siteCallees "write_bytes"), ("f_stat", siteCallees "f_stat"),
+     ("get_dir", siteCallees "get_dir"), ("do_move", siteCallees "do_move"), ("copy", siteCallees "copy"),
+     ("copy_file", siteCallees "copy_file"), ("save_object", siteCallees "save_object"),
+     ("restore_object", siteCallees "restore_object"), ("dumpstat", siteCallees "dumpstat"),
+     ("dump_prog", siteCallees "dump_prog"), ("doread", siteCallees "doread"), ("dowrite", siteCallees "dowrite"),
+     ("load_object", siteCallees "load_object"), ("inc_open", siteCallees "inc_open")] =
+    [("read_file", ["open"]), ("write_file", ["fopen"]), ("remove_file", ["unlink"]), ("f_mkdir", ["mkdir"]),
+     ("f_rmdir", ["rmdir"]), ("file_size", ["stat"]), ("file_length", ["open"]), ("tail", ["fopen"]),
+     ("read_bytes", ["fopen"]), ("write_bytes", ["open"]), ("f_stat", ["stat"]),
+     ("get_dir", ["stat", "opendir", "stat"]), ("do_move", ["rename", "unlink", "symlink"]),
+     ("copy", ["open", "open", "unlink", "unlink"]), ("copy_file", ["open", "stat", "open"]),
+     ("save_object", ["fopen", "unlink", "unlink", "rename", "unlink"]), ("restore_object", ["fopen"]),
+     ("dumpstat", ["fopen"]), ("dump_prog", ["fopen"]), ("doread", ["fopen"]), ("dowrite", ["fopen"]),
+     ("load_object", ["stat", "open"]), ("inc_open", ["open", "open"])] := by decide
 
 /-- `save_object` builds its temporary file with `"%.250s.tmp"` from the approved path (the `250` of
     `Sys.saveEfun` and of the oracle's `covers`) -/
